@@ -415,11 +415,39 @@ def _type_tests(chk):
                 if ('int' in seen) != ('float' in seen):
                     only = 'int' if 'int' in seen else 'float'
                     other = 'float' if only == 'int' else 'int'
-                    chk.bad('C12.chk', mod, fname, norm(seen[only]),
-                            f'isinstance({var}, {only}) with no {other} counterpart in the same function: the {other} spelling of the same number takes a different path',
-                            node=seen[only])
+                    # positively wrong: the one-spelling test decides validity (its branch, or the branch of its negation, is a constant / failure result)
+                    node = seen[only]
+                    cur, decides = node, False
+                    while cur is not None and not isinstance(cur, (ast.If, ast.IfExp, ast.FunctionDef)):
+                        cur = getattr(cur, '_parent', None)
+                    if isinstance(cur, ast.If):
+                        for blk in (cur.body, cur.orelse):
+                            if len(blk) == 1 and ((isinstance(blk[0], ast.Return) and (blk[0].value is None or isinstance(blk[0].value, ast.Constant))) or isinstance(blk[0], ast.Raise)):
+                                decides = True
+                    elif isinstance(cur, ast.IfExp):
+                        decides = isinstance(cur.body, ast.Constant) or isinstance(cur.orelse, ast.Constant)
+                    if decides:
+                        chk.bad('C12.chk', mod, fname, norm(seen[only]),
+                                f'isinstance({var}, {only}) with no {other} counterpart decides whether the value is accepted: the {other} spelling of the same number is treated as invalid / as a constant',
+                                node=seen[only])
+                    else:
+                        chk.unrec('C12.chk', f'{modname}.{fname}: isinstance({var}, {only}) without a {other} counterpart - whether both spellings give the same result on the two paths is not decided here', mod.rel)
                 elif seen:
                     chk.ok('C12.chk', f'{modname}.{fname}: {var} tested for both int and float')
+
+
+def _arith_spelling(chk):
+    from .. import evalsim
+    n, problems = evalsim.arithmetic_spelling(chk.repo, 'C12.spell')
+    mod = chk.repo.module('runtime')
+    sp = [m for k, m in problems if k == 'spelling']
+    und = [m for k, m in problems if k == 'undecided']
+    if sp:
+        chk.bad('C12.spell', mod, 'evaluate_expression', sp[0][:120], f'abstract evaluation: {sp[0]} ({len(sp)} operand pairs deviate): the int and float spellings of a number must be interchangeable for every operator')
+    elif und:
+        chk.unrec('C12.spell', f'arithmetic spelling not decided for {len(und)} operand pairs, e.g. {und[0]}', mod.rel)
+    else:
+        chk.ok('C12.spell', f'{n} abstract evaluations: 14 operators x integral operand pairs from -7..7, each operand spelled as int and as float - the four results are equal', count=n)
 
 
 def _integrality(chk):
@@ -471,6 +499,7 @@ def run(chk):
     chk.guard('C12.spell', check_bounds, chk, 'C12.spell', ('spelling',))
     chk.guard('C12.chk', _integrality, chk)
     chk.guard('C12.chk', _type_tests, chk)
+    chk.guard('C12.spell', _arith_spelling, chk)
     chk.guard('C12.lit', _literals, chk)
     # int and float spellings print alike: value_string (C13.D/C) and value_json (C14.S/N) - shared rules
     from . import c13, c14
